@@ -176,7 +176,7 @@ func (ex *Exec) binop(op token.Token, x, y *Term, mt mtype, where string) *Term 
 		w := Fresh("wrap", SInt)
 		ex.st.ranges[w] = bi(2)
 		ex.st.addFact(Eq(Add(r, Mul(IntC(mod), w)), s), where+":add")
-		ex.st.spec = append(ex.st.spec, SpecLemma{Eq(w, IntI(0)), len(ex.st.facts), where + ":nowrap"})
+		ex.st.spec = append(ex.st.spec, SpecLemma{Eq(w, IntI(0)), len(ex.st.facts), "nowrap@" + where})
 		return r
 	case token.SUB:
 		s := Sub(x, y)
